@@ -54,6 +54,31 @@ let handle kind a =
                 Some (Printf.sprintf "len=%s blocks=%s landmarks=%s" (dec_of_n h.h_length) (dec_of_n h.h_blocks)
                         (String.concat "," (List.map dec_of_n h.h_landmarks))))
        | [] -> None)
+  | "mates" ->
+      (* a.(0) = preserve_read_names (does not reach the mate columns), a.(1) = refs, a.(2) = records *)
+      let refs = if a.(1) = "_" then [] else
+        List.map (fun r -> match split_on ':' r with
+          | [_; h] -> bytes_of_hex h | _ -> failwith "ref") (split_on ',' a.(1)) in
+      let opt_n s = if s = "-1" then None else Some (n_of_dec s) in
+      let opt_pos s = if s = "0" then None else Some (n_of_dec s) in
+      let name s = if s = "*" then None
+        else Some (List.init (String.length s) (fun i -> n_of_int (Char.code s.[i]))) in
+      let recs = List.map (fun r ->
+        match split_on '|' r with
+        | [nm; fl; rid; pos; cg; mrid; mpos; tl; sq] ->
+            let seq = bytes_of_hex sq in
+            samrec_of (n_of_dec fl) (name nm) (opt_n rid) (opt_pos pos) (parse_cigar cg) seq
+              (List.map (fun _ -> n_of_int 30) seq) (opt_n mrid) (opt_pos mpos) (z_of_dec tl)
+        | _ -> failwith "mates record") (split_on ';' a.(2)) in
+      let on = function None -> "-1" | Some x -> dec_of_n x in
+      let op = function None -> "0" | Some x -> dec_of_n x in
+      (match mates_roundtrip refs recs with
+       | MWriteErr -> Some "Err:InvalidInput"
+       | MReadErr -> Some "ReadErr:InvalidData"
+       | MOk out ->
+           Some (String.concat ";" (List.map (fun r ->
+             let (((f, mr), mp), t) = mate_view r in
+             Printf.sprintf "%s,%s,%s,%s" (dec_of_n f) (on mr) (op mp) (dec_of_z t)) out)))
   | _ -> None
 
 let () = run_driver handle
